@@ -42,7 +42,7 @@ def gen(rng, tier, idx):
                       'rows_at_a_time': rng.choice([1, 2, 3, 5, 9, 40]), 'n_processors': rng.randint(1, 6),
                       'sched': common.draw_sched(rng)})
     return {'wp': wp, 'parts': parts, 'normalised': rng.random() < 0.3, 'plant_cpm1': rng.random() < 0.5,
-            'seed': rng.randrange(2 ** 31), 'kcfg': common.draw_kernel_cfg(rng)}
+            'plant_near_cpm1': rng.random() < 0.3, 'seed': rng.randrange(2 ** 31), 'kcfg': common.draw_kernel_cfg(rng)}
 
 
 def exact_stats(X, labels, leaves, normalised):
@@ -139,12 +139,26 @@ def run(scn, sb):
         X[i, 1] = 2
         X[i, 2] = 1000000 - 3
         res['probes']['exact_cpm1_planted'] = 1
+    if scn.get('plant_near_cpm1') and not scn['normalised'] and X.shape[1] >= 3 and X.shape[0] >= 2:
+        # cells whose single count sits 10-20 ppm off 1 CPM, on either side (outside the code's own float tolerance of
+        # 1e-6 in log2 space, which is not probed: see ASSUMPTIONS)
+        for tot in (1000010, 999990, 1000020)[:int(r.integers(1, 4))]:
+            i = int(r.integers(0, X.shape[0]))
+            X[i] = 0
+            X[i, 0] = 1
+            X[i, 1] = 2
+            X[i, 2] = tot - 3
+        res['probes']['near_cpm1_planted'] = 1
     normalised = scn['normalised']
     if normalised:
         X = model.log2cpm(X)
         if scn['plant_cpm1']:
             X[int(r.integers(0, X.shape[0])), 0] = 1.0
             res['probes']['exact_log2_1_planted'] = 1
+        if scn.get('plant_near_cpm1'):
+            for dv in (8.0e-6, -8.0e-6)[:int(r.integers(1, 3))]:
+                X[int(r.integers(0, X.shape[0])), int(r.integers(0, X.shape[1]))] = 1.0 + dv
+            res['probes']['near_log2_1_planted'] = 1
     tax = W.tax
     leaves = sorted(tax.leaves)
     want = exact_stats(X, labels, leaves, normalised)
